@@ -223,7 +223,7 @@ Definition read_val (text : nat) (r : rd) (d : db) : bool + err :=
 
 (* ---------------- one attempt ---------------- *)
 Inductive kind := KConnect | KIntegrity | KRemove | KBeginD | KBeginI | KRead | KWrite | KCommit | KClose | KNone.
-Inductive outcome := ODone | OBlocked | OBusy | OFail | OErr | OViol | OIdle.
+Inductive outcome := ODone | OBlocked | OBusy | OFail | OErr | OViol | OIdle | OTimeout.
 
 Definition kind_of (s : stmt) : kind :=
   match s with
@@ -408,6 +408,50 @@ Fixpoint run (sched : list nat) (c : cfg) : cfg * list obs :=
       (c2, o :: os)
   end.
 
+(* ---------------- unfair schedules: an expired busy timeout ----------------
+   The theorems are about `run` (a blocked statement is retried for ever).  For the correspondence and
+   for the refutation of a missing busy guard, `runx` also accepts entries 100 + tid: "if this attempt
+   of call tid is blocked, its busy timeout expires now" - the statement raises "database is locked"
+   after having waited.  `guard` = the handler of the integrity check re-raises a busy error after
+   conn.close() (parser.py 1043-1045; recognised by the probe); without it the time-out is taken for
+   corruption and the handler goes on to os.remove.  Any other statement that times out fails the call
+   (the fall-back wrapper of parse() then parses uncached). *)
+Definition expire (guard : bool) (tid : nat) (c : cfg) : cfg * obs :=
+  match nth_error (c_thrs c) tid with
+  | None => (c, (tid, KNone, OIdle))
+  | Some t =>
+      match t_st t, t_k t with
+      | Run, IS s :: k' =>
+          let t' :=
+            match s with
+            | SIntegrity true =>
+                if guard then set_k t [IS SClose]
+                else advance k' (Thr k' (t_conn t) (t_lvl t) (t_intx t) (t_view t) (t_regs t) true (t_par t) (t_st t))
+            | _ => failed t EBusy
+            end in
+          (Cfg (c_path c) (c_store c) (upd_nth tid t' (c_thrs c)) (c_viol c), (tid, kind_of s, OTimeout))
+      | _, _ => (c, (tid, KNone, OIdle))
+      end
+  end.
+
+Definition stepx (guard : bool) (e : nat) (c : cfg) : cfg * obs :=
+  if Nat.ltb e 100 then step e c
+  else
+    let tid := e - 100 in
+    match snd (snd (step tid c)) with
+    | OBlocked => expire guard tid c
+    | _ => step tid c
+    end.
+
+Fixpoint runx (guard : bool) (sched : list nat) (c : cfg) : cfg * list obs :=
+  match sched with
+  | [] => (c, [])
+  | e :: sched' =>
+      let '(c1, o) := stepx guard e c in
+      let '(c2, os) := runx guard sched' c1 in
+      (c2, o :: os)
+  end.
+
 Definition new_thr (p : prog) (par : params) : thr :=
   advance p (Thr p None Unl false None [] false par Run).
 
@@ -423,7 +467,8 @@ Definition kind_eqb (a b : kind) : bool :=
   end.
 Definition out_eqb (a b : outcome) : bool :=
   match a, b with
-  | ODone, ODone | OBlocked, OBlocked | OBusy, OBusy | OFail, OFail | OErr, OErr | OViol, OViol | OIdle, OIdle => true
+  | ODone, ODone | OBlocked, OBlocked | OBusy, OBusy | OFail, OFail | OErr, OErr | OViol, OViol | OIdle, OIdle
+  | OTimeout, OTimeout => true
   | _, _ => false
   end.
 Definition obs_eqb (a b : obs) : bool :=
@@ -459,11 +504,11 @@ Definition same_set (a b : list nat) : bool :=
 
 (* a case: program, initial database, calls, effective schedule, observed steps, final status per
    call (0 running / 1 finished / 2 "database is locked" / 3 other exception), cached texts at the end *)
-Definition case := (prog * option db * list params * list nat * list obs * list nat * list nat)%type.
+Definition case := (prog * bool * option db * list params * list nat * list obs * list nat * list nat)%type.
 
 Definition check_case (x : case) : bool :=
-  let '(p, d0, pars, sched, iobs, ist, irows) := x in
-  let '(c, mobs) := run sched (init_cfg p d0 pars) in
+  let '(p, guard, d0, pars, sched, iobs, ist, irows) := x in
+  let '(c, mobs) := runx guard sched (init_cfg p d0 pars) in
   obs_match mobs iobs &&
   (c_viol c ||
    (nlist_eqb (map (fun t => st_code (t_st t)) (c_thrs c)) ist && same_set (rows_of c) irows)).
